@@ -1,6 +1,7 @@
 #!/usr/bin/env python3
 """Mutation self-test for C08 / C09 (development aid, not a registered command).
-Applies small semantic mutants to the scratch worktree /tmp/wt/C08 (a git worktree of /repo),
+Applies small semantic mutants to the scratch worktree /tmp/wt/C08 (a detached git worktree of /repo's
+main, created and removed by the script when absent),
 checks that the repository's own test suite still passes on the mutant, runs the quick tier of
 the check against it (VERIF_REPO) and reports whether a VIOLATION line was printed.
 usage: mutants.py [C08|C09] [name...]"""
@@ -44,6 +45,10 @@ def sh(cmd, cwd=None, env=ENV, timeout=1500):
 def main():
     pid = sys.argv[1] if len(sys.argv) > 1 else "C08"
     only = sys.argv[2:]
+    created = not os.path.isdir(WT)
+    if created:
+        os.makedirs(os.path.dirname(WT), exist_ok=True)
+        sh(["git", "-C", "/repo", "worktree", "add", "--detach", WT, "main"])
     sh(["git", "checkout", "-q", "."], cwd=WT); sh(["git", "reset", "-q", "--hard", "main"], cwd=WT)
     results = []
     for name, path, old, new in M[pid]:
@@ -71,5 +76,7 @@ def main():
     # the check must be silent on the unmutated tree
     rc2, out2 = sh(["./check", pid, "--tier", "quick"], cwd="/verif", env=dict(ENV, VERIF_REPO=WT), timeout=1800)
     print("%-42s %-20s %s" % ("(unmutated worktree)", "", "exit %d %s" % (rc2, out2.strip().split("\n")[-1])))
+    if created:
+        sh(["git", "-C", "/repo", "worktree", "remove", "--force", WT])
 
 main()
